@@ -129,9 +129,10 @@ Proof.
   assert (Hm : eqa_mises x11 x22 x33 x12 x13 x23 = eqs_mises x11 x22 x33 x12 x13 x23).
   { unfold eqa_mises, eqs_mises. cbv zeta. first [reflexivity | f_equal; first [ring | field]]. }
   assert (Hs : eqa__sign_trace x11 x22 x33 = eqs__sign_trace x11 x22 x33).
-  { unfold eqa__sign_trace, eqs__sign_trace. cbv zeta. first [reflexivity | rewrite !sgnR_fix0; reflexivity]. }
+  { unfold eqa__sign_trace, eqs__sign_trace. cbv zeta.
+    first [reflexivity | rewrite !sgnR_fix0; first [reflexivity | match goal with |- context [Rle_dec 0 ?x] => replace x with (x11 + x22 + x33) by ring end; reflexivity]]. }
   split; [exact Hm|]. split; [exact Hs|].
-  unfold eqa_signed_mises_trace, eqs_signed_mises_trace. rewrite Hm, Hs. reflexivity.
+  unfold eqa_signed_mises_trace, eqs_signed_mises_trace. cbv zeta. rewrite Hm, Hs. first [reflexivity | ring].
 Qed.
 
 Lemma rad_nonneg x11 x22 x33 x12 x13 x23 :
@@ -171,10 +172,14 @@ Qed.
 
 (* ------------------------------------------------------------------ the sign of the trace (generated) *)
 Lemma sign_trace_spec a : sign_trace_t a = if Rle_dec 0 (I1 a) then 1 else -1.
-Proof. unfold sign_trace_t, eqs__sign_trace, I1. cbv zeta. apply sgnR_fix0. Qed.
+Proof.
+  unfold sign_trace_t, eqs__sign_trace, I1. cbv zeta.
+  match goal with |- context [sgnR ?x] => replace x with (s11 a + s22 a + s33 a) by ring end.
+  apply sgnR_fix0.
+Qed.
 
 Lemma signed_mises_trace_t_eq a : signed_mises_trace_t a = sign_trace_t a * mises_t a.
-Proof. reflexivity. Qed.
+Proof. unfold signed_mises_trace_t, eqs_signed_mises_trace, sign_trace_t, mises_t. cbv zeta. first [reflexivity | ring]. Qed.
 
 (* ------------------------------------------------------------------ eigenvalue triples *)
 Definition E3 := (R * R * R)%type.
